@@ -23,7 +23,8 @@ META = {
     "bounds": "geometry (addr width 3-6, data width 8/16/32, granularity dividing it); sequences of 2-3 (thorough "
               "2-4) additions of real registers with widths in {0,1,dw,dw+1,2dw+1,4dw}, each at an implicit or a "
               "SYMBOLIC explicit offset in [0, 2^aw * dw/g + 2], inside Cluster/Index scopes from a small grammar, "
-              "optionally a repeated name, an add after freeze",
+              "optionally a repeated name, a rejected add() raised out of the scopes before a real one, an add after "
+              "freeze; data_width/granularity ratios 1,2,4 and the non-powers-of-two 3,5,6",
     "outside": "more than 4 registers; widths above 4 bus words; acceptance completeness (legal layouts being refused) "
                "is not part of the statement",
     "assumptions": ["isinstance/range rebound for amaranth_soc.memory and amaranth_soc.csr.reg",
@@ -43,7 +44,9 @@ SCOPES = [[], [["c", "blk"]], [["c", "blk"], ["i", 0]], [["i", 1]], [["c", "x"],
 def configs(tier, seed):
     rnd = random.Random(seed + 1717)
     out = []
-    geos = [(4, 8, 8), (4, 16, 8), (5, 32, 8), (3, 8, 8), (4, 32, 16), (6, 16, 16)]
+    # (addr width, data width, granularity): ratios 1, 2, 4 and the non-powers-of-two 3, 6, 5
+    geos = [(4, 8, 8), (4, 16, 8), (5, 32, 8), (3, 8, 8), (4, 32, 16), (6, 16, 16), (4, 24, 8), (5, 48, 8), (4, 12, 4),
+            (4, 40, 8)]
     n_cfg = 160 if tier == "quick" else 1800
     while len(out) < n_cfg:
         aw, dw, g = rnd.choice(geos)
@@ -52,7 +55,10 @@ def configs(tier, seed):
         adds = []
         for i in range(n):
             adds.append({"w": rnd.choice(widths), "off": rnd.random() < 0.5, "scope": rnd.randrange(len(SCOPES)),
-                         "name": rnd.choice(["a", "b", "c"]) if rnd.random() < 0.3 else f"r{i}"})
+                         "name": rnd.choice(["a", "b", "c"]) if rnd.random() < 0.3 else f"r{i}",
+                         # a rejected call made INSIDE the scopes just before the real one (same register twice,
+                         # empty name, misaligned offset): it must raise and leave no trace
+                         "bad_first": rnd.choice([None, None, "twice", "name", "offset"])})
         out.append({"aw": aw, "dw": dw, "g": g, "adds": adds, "late": rnd.random() < 0.2})
     return out
 
@@ -74,19 +80,34 @@ def harness_for(cfg):
             o = E.int(f"o{i}", 0, top * ratio + 2) if a["off"] else None
             scope = SCOPES[a["scope"]]
 
-            def do_add():
-                return b.add(a["name"], r, offset=o)
+            import contextlib
+            if a.get("bad_first") and (regs or a["bad_first"] != "twice"):
+                # the rejected call raises out of the with-blocks and is handled outside them
+                try:
+                    with contextlib.ExitStack() as st:
+                        for kind, val in scope:
+                            st.enter_context(b.Cluster(val) if kind == "c" else b.Index(val))
+                        if a["bad_first"] == "twice":
+                            b.add("again", regs[0])
+                        elif a["bad_first"] == "name":
+                            b.add("", Reg(8))
+                        else:
+                            b.add("misaligned", Reg(8), offset=ratio + 1 if ratio > 1 else -1)
+                    E.prove(False, "an invalid add() was accepted")
+                except (ValueError, TypeError):
+                    pass
+            refused = False
             try:
-                # enter the scopes
-                import contextlib
                 with contextlib.ExitStack() as st:
                     for kind, val in scope:
                         st.enter_context(b.Cluster(val) if kind == "c" else b.Index(val))
-                    do_add()
+                    b.add(a["name"], r, offset=o)
             except ValueError:
+                refused = True
+            if refused:
                 E.observe("add-refused")
                 E.prove(o is not None and (o % ratio != 0), "add() refused an offset that is a multiple of data_width/granularity")
-                raise PathAbort()
+                continue        # a refused register leaves no trace; the builder stays usable
             if o is not None:
                 E.prove(o % ratio == 0, "add() accepted an offset that is not a multiple of data_width/granularity")
             regs.append(r)
@@ -108,7 +129,9 @@ def harness_for(cfg):
         E.prove(len(got) == len(regs), "every added register is in the memory map exactly once")
         prev_end = 0
         placed = []
-        for r, a, o, nm in zip(regs, cfg["adds"], offs, names):
+        widths_of = {id(r): r.element.width for r in regs}
+        for r, o, nm in zip(regs, offs, names):
+            a = {"w": widths_of[id(r)]}
             E.prove(id(r) in got, "added register missing from the memory map")
             n, s, e = got[id(r)]
             size = _pow2_ceil((a["w"] + dw - 1) // dw)
